@@ -314,7 +314,25 @@ pub fn argument_family(g: &SymbolicAsyncGraph) -> Vec<(String, GraphColoredVerti
 /// `points_only`: only the literals of the first variable, single states, small cubes and their
 /// complements (used for the synthetic wide networks, where fixed points over literal combinations
 /// take exponentially long).
+/// Arguments that are large as DATA: on the networks with variables a00..a15, b00..b15 the set AND_i (a_i <=> b_i) has a BDD of
+/// 196 607 nodes (the variables of a pair are 16 positions apart in the order); anything that switches algorithm on BDD size shows here.
+fn data_large_family(g: &SymbolicAsyncGraph) -> Option<Vec<(String, GraphColoredVertices)>> {
+    let find = |n: &str| g.variables().find(|v| g.get_variable_name(*v) == n);
+    let mut p = g.mk_unit_colored_vertices();
+    for i in 0..16 {
+        let (a, b) = (find(&format!("a{i:02}"))?, find(&format!("b{i:02}"))?);
+        let same = g.fix_network_variable(a, true).intersect(&g.fix_network_variable(b, true)).union(&g.fix_network_variable(a, false).intersect(&g.fix_network_variable(b, false)));
+        p = p.intersect(&same);
+    }
+    let unit = g.mk_unit_colored_vertices();
+    let a0 = g.fix_network_variable(find("a00")?, true);
+    Some(vec![("AND_i (a_i <=> b_i)".to_string(), p.clone()), ("a00".to_string(), a0.clone()), ("its complement".to_string(), unit.minus(&p)), ("AND_i (a_i <=> b_i) & a00".to_string(), p.intersect(&a0))])
+}
+
 pub fn argument_family_mode(g: &SymbolicAsyncGraph, points_only: bool) -> Vec<(String, GraphColoredVertices)> {
+    if let Some(f) = data_large_family(g) {
+        return f;
+    }
     let vars: Vec<_> = g.variables().take(if points_only { 1 } else { 4 }).collect();
     let unit = g.mk_unit_colored_vertices();
     let mut base: Vec<(String, GraphColoredVertices)> = vec![];
@@ -637,7 +655,7 @@ pub fn run(tier: &str) -> Result<Report, String> {
     let limit = if tier == "quick" { 20.0 } else { 300.0 };
     // (model, number of erased update functions, p_step, q_count)
     let models: Vec<(&str, u64, u64, u64)> = if tier == "quick" {
-        vec![("pystablemotifs-models/myeloid.aeon", 0, 1, 4), ("cell_division", 0, 6, 4), ("synthetic:chain60", 0, 1, 4)]
+        vec![("pystablemotifs-models/myeloid.aeon", 0, 1, 4), ("cell_division", 0, 6, 4), ("synthetic:chain60", 0, 1, 4), ("synthetic:pairs16chains", 0, 1, 3)]
     } else {
         vec![
             ("pystablemotifs-models/myeloid.aeon", 0, 1, 10),
@@ -648,6 +666,8 @@ pub fn run(tier: &str) -> Result<Report, String> {
             ("pystablemotifs-models/EMT.aeon", 0, 2, 10),
             ("synthetic:chain60", 0, 1, 10),
             ("synthetic:chain58p", 0, 1, 10),
+            ("synthetic:pairs16", 0, 1, 6),
+            ("synthetic:pairs16chains", 0, 1, 6),
         ]
     };
     let mut jobs = vec![];
@@ -659,10 +679,14 @@ pub fn run(tier: &str) -> Result<Report, String> {
             if tier == "quick" && *m == "cell_division" && slow {
                 continue;
             }
+            // quick tier: on the data-large network the one-argument laws only
+            if tier == "quick" && m.starts_with("synthetic:pairs16") && li < all.len() && all[li].arity > 1 {
+                continue;
+            }
             jobs.push(json!({"kind": "c11big", "model": m, "erase": erase, "law_index": li, "p_step": p_step, "q_count": q_count}));
         }
     }
-    let results: Vec<(Value, crate::jobs::JobResult)> = jobs.par_iter().map(|j| (j.clone(), crate::jobs::run(j, limit))).collect();
+    let results: Vec<(Value, crate::jobs::JobResult)> = jobs.par_iter().map(|j| (j.clone(), crate::jobs::run(j, if j["model"].as_str().unwrap_or("").starts_with("synthetic:pairs16") { limit * 3.0 } else { limit }))).collect();
     let mut per_model: HashMap<String, (u64, u64, Value)> = HashMap::new();
     for (j, r) in results {
         let mname = format!("{}{}", j["model"].as_str().unwrap_or(""), if j["erase"].as_u64().unwrap_or(0) > 0 { format!(" with {} update functions erased", j["erase"]) } else { String::new() });
@@ -699,6 +723,6 @@ pub fn run(tier: &str) -> Result<Report, String> {
     rep.distinct_nontrivial = rep.extra.get("law_instances_tiny").and_then(|v| v.as_u64()).unwrap_or(0) + big_total;
     rep.set("laws", json!(all.iter().map(|l| format!("{}: {} {} {}", l.name, l.lhs, if l.rel == Rel::Eq { "=" } else { "⊆" }, l.rhs)).collect::<Vec<_>>()));
     rep.sample(json!({"law": "AU fixed point", "network": "con2", "p": [5, 9], "q": [2, 0], "meaning": "per-colour state masks of the wild-card sets; both sides evaluated by the tool and compared as sets"}));
-    rep.rule = format!("{} laws (fixed-point equations, dualities in both directions - a negation directly above every temporal operator -, excluded middle for the until operators, inclusions, monotonicity in every argument, steady states as self-loops) + 3 graph-library laws (EF = reach_backward, AG = trap_forward, EU = reach_bwd in the restricted graph), each instantiated with wild-card arguments (also: every one-argument law and the library laws on every one of the 256 state sets of 512 (quick: 128) three-variable networks built from a menu of 8 update functions per variable (regulations unsigned, and the same dynamics with sign and observability of every essential input declared); on the tiny networks every law x first-argument set also with both sides submitted as one batch, in both orders, to model_check_multiple_extended_formulae_dirty; compositionality: for every ordered pair (A, B) of 20 operator applications over the same arguments the single formula `A & B` must be the intersection of A and B evaluated on their own, and the batch [A, B] must return both - all (p, q) on networks with <= 16 sets, a spread of q otherwise (thorough): on the tiny networks {which:?} with EVERY coloured set as p (all pairs (p,q) when the network has <= 16 sets, or <= 256 in the thorough tier; otherwise q from a spread of 16, r from a spread of 4), anchored by the explicit-state oracle; on the bundled models {models:?} with a declared family (literals, conjunctions/disjunctions of two literals over the first 4 variables, each also cut by each half of the colour space, empty, unit, results of two formulae). distinct_nontrivial = number of law instances (distinct (law, argument tuple, network))", all.len());
+    rep.rule = format!("{} laws (fixed-point equations, dualities in both directions - a negation directly above every temporal operator -, excluded middle for the until operators, inclusions, monotonicity in every argument, steady states as self-loops) + 3 graph-library laws (EF = reach_backward, AG = trap_forward, EU = reach_bwd in the restricted graph), each instantiated with wild-card arguments (also: every one-argument law and the library laws on every one of the 256 state sets of 512 (quick: 128) three-variable networks built from a menu of 8 update functions per variable (regulations unsigned, and the same dynamics with sign and observability of every essential input declared); on the tiny networks every law x first-argument set also with both sides submitted as one batch, in both orders, to model_check_multiple_extended_formulae_dirty; compositionality: for every ordered pair (A, B) of 20 operator applications over the same arguments the single formula `A & B` must be the intersection of A and B evaluated on their own, and the batch [A, B] must return both - all (p, q) on networks with <= 16 sets, a spread of q otherwise (thorough): on the tiny networks {which:?} with EVERY coloured set as p (all pairs (p,q) when the network has <= 16 sets, or <= 256 in the thorough tier; otherwise q from a spread of 16, r from a spread of 4), anchored by the explicit-state oracle; on the bundled models {models:?} with a declared family (on the pairs16 networks: the set AND_i (a_i <=> b_i) with a BDD of 196 607 nodes, its complement, its intersection / union with a literal; elsewhere: literals, conjunctions/disjunctions of two literals over the first 4 variables, each also cut by each half of the colour space, empty, unit, results of two formulae). distinct_nontrivial = number of law instances (distinct (law, argument tuple, network))", all.len());
     Ok(rep)
 }
